@@ -30,8 +30,10 @@ LEVEL_TEXT = ('Theorems for every grid (any bbox, tile size, positive resolution
               'configurations, parsing its real capabilities and observing the coordinate passed to the tile manager.')
 LEVEL_NOTE = ('Trusted: Coq kernel; hand-written model TileSvc.v/Grid.v; the correspondence harness (lxml parsing, client formulas '
               'in Fractions). Not modelled: template rendering and float formatting (validated by parsing the real documents), '
-              'IEEE rounding of grid.py (exact stream bit-exact, realistic stream 1e-9 relative), the path from the internal '
-              'coordinate to pixels (C01/C04), the float test res[0]/res[1] == sqrt(2) (an input of the model).')
+              'IEEE rounding of grid.py (exact stream bit-exact, realistic stream 1e-9 relative). The path from the internal '
+              'coordinate to pixels is covered by an end-to-end pixel stage (position-encoding upstream, real tile manager, meta tiles, '
+              'TileSplitter) with a pixel oracle and a correspondence against the meta tile model MetaGrid.v of C04 (imported read-only); '
+              'the float test res[0]/res[1] == sqrt(2) is an input of the model.')
 DESIGN_REF = 'DESIGN.md section 5, C02'
 RULE = ('case = (grid configuration, service flavour incl. ?origin= / tms origin option, address); non-trivial = address on a grid '
         'whose extent is not a multiple of the tile span, with ul origin, a global profile, sqrt2 levels, NE axis order or a '
@@ -1278,8 +1280,12 @@ def run(ctx):
                    "fun c => let '(g, b, w, h, obs) := c in wmsc_eqb (wmsc_get_map g b w h) obs", lambda i: R.wmsc[1][i], defs=defs)
     if pix:
         ctx.corr_check('stored_pixel', 'Grid MetaGrid', 'mgrid * Z * (Z * Z * Z) * Z * Z * option (option (Z * Z))', pix[1],
+                       # the colour carries the low 11 bits of the cell index, the model the index mod 4093: cells just outside the
+                       # grid bbox (meta_buffer 0 does not limit the meta tile to the grid bbox) have negative indices
                        "fun c => let '(m, q, t, j, k, obs) := c in "
-                       "opt_eqb (opt_eqb (pair_eqb Z.eqb Z.eqb)) (model_pixel m q HowMeta t j k) obs",
+                       "let n := fun v => (if 2048 <=? v then v - 4093 else v) mod 2048 in "
+                       "opt_eqb (opt_eqb (pair_eqb Z.eqb Z.eqb)) "
+                       "(option_map (option_map (fun p : Z * Z => (n (fst p), n (snd p)))) (model_pixel m q HowMeta t j k)) obs",
                        lambda i: pix[2][i], defs='\n'.join(pix[0]))
     ctx.corr_check('kml_document', imports, 'tlayer * Z * Z * Z * Z * kml_doc', R.kml[0],
                    "fun c => let '(s, tol, x, y, z, obs) := c in kml_doc_close tol (kml_document s x y z) obs", lambda i: R.kml[1][i], defs=defs)
